@@ -317,6 +317,14 @@ func c17Build(seed int64) (*c17Image, error) {
 	for p, d := range files {
 		es = append(es, fsx.Entry{Path: p, Data: d})
 	}
+	// symbolic links to regular files: opening through a link walks the directories a second time
+	// (the library opens the target from inside the first open)
+	for i := 0; i < 10; i++ {
+		target := fmt.Sprintf("small/f%03d.dat", i*5)
+		lp := fmt.Sprintf("link-to-%03d", i*5) // in the root: the library resolves a link's target from the root directory
+		es = append(es, fsx.Entry{Path: lp, Link: target})
+		files[lp] = files[target]
+	}
 	vol, err := fsx.BuildImage("squashfs", es, fsx.Opt{SquashBlock: 4096})
 	if err != nil {
 		return nil, err
